@@ -1,15 +1,9 @@
 import BleveModel.Proto
 import BleveModel.Drv.C07
 import BleveModel.Drv.C06
+import BleveModel.Drv.C15
 
 open Bleve.Proto
-
-/-- stateless drivers: one answer per line -/
-def statelessStep (which : String) : Option (List String → String) :=
-  match which with
-  | "c07" => some Bleve.Drv.C07.step
-  | "c06" => some Bleve.Drv.C06.step
-  | _ => none
 
 partial def loop (h : IO.FS.Stream) (out : IO.FS.Stream) (f : List String → String) : IO Unit := do
   let line ← h.getLine
@@ -17,12 +11,19 @@ partial def loop (h : IO.FS.Stream) (out : IO.FS.Stream) (f : List String → St
   out.putStrLn (f (tokens line))
   loop h out f
 
+partial def loopS {σ : Type} (h : IO.FS.Stream) (out : IO.FS.Stream) (st : σ)
+    (f : σ → List String → σ × String) : IO Unit := do
+  let line ← h.getLine
+  if line.isEmpty then return ()
+  let (st', o) := f st (tokens line)
+  out.putStrLn o
+  loopS h out st' f
+
 def main (args : List String) : IO UInt32 := do
   let stdin ← IO.getStdin
   let stdout ← IO.getStdout
   match args with
-  | [which] =>
-    match statelessStep which with
-    | some f => loop stdin stdout f; stdout.flush; return 0
-    | none => IO.eprintln s!"unknown driver {which}"; return 2
+  | ["c07"] => loop stdin stdout Bleve.Drv.C07.step; stdout.flush; return 0
+  | ["c06"] => loop stdin stdout Bleve.Drv.C06.step; stdout.flush; return 0
+  | ["c15"] => loopS stdin stdout ({} : Bleve.Drv.C15.S) Bleve.Drv.C15.step; stdout.flush; return 0
   | _ => IO.eprintln "usage: drv <driver>"; return 2
